@@ -156,13 +156,16 @@ def emitQuads (s : St α) : List (Pt α × Pt α) → St α × Calls α
     ((emitQuads { s with cur := t } r).1, .quad c t () :: (emitQuads { s with cur := t } r).2)
 
 /-- `arc`, the part after the early return: move-to / line-to the arc's start, then the pieces.
-`last_cmd` is not touched here (it stays whatever `≤ Begin` verb it was, or becomes `Begin`). -/
+`last_cmd` is not touched here (it stays whatever `≤ Begin` verb it was, or becomes `Begin`).
+The connecting `line_to(arc_start)` sets `current_position = arc_start` (lyon commit 250152af,
+repair of finding C15-arc-zero-sweep-stale-position). -/
 def arcCurve (s : St α) (start : Pt α) (near : Bool) (quads : List (Pt α × Pt α)) :
     St α × Calls α :=
   if s.needMoveTo then
     ((emitQuads (moveTo s start).1 quads).1, (moveTo s start).2 ++ (emitQuads (moveTo s start).1 quads).2)
   else if near then
-    ((emitQuads s quads).1, .line start () :: (emitQuads s quads).2)
+    ((emitQuads { s with cur := start } quads).1,
+     .line start () :: (emitQuads { s with cur := start } quads).2)
   else emitQuads s quads
 
 /-- `WithSvg::arc` (as repaired by lyon commit 059d9c0c): `last_ctrl = current_position` on
@@ -241,9 +244,10 @@ operands (radii), the adapter's current position, and lyon_geom's results for th
 section numeric
 variable [Scalar α] [Transc α]
 
-/-- `SvgArc::is_straight_line`: `|rx| <= EPSILON || |ry| <= EPSILON || from == to` -/
+/-- `SvgArc::is_straight_line`: `|rx| <= EPSILON || |ry| <= EPSILON || from == to`, with lyon's own
+`Scalar::EPSILON` for `f32` (`1e-4`; `WithSvg` works on `f32` points) — not the machine epsilon -/
 def isStraightLine (radii from_ to : Pt α) : Bool :=
-  decide (Scalar.abs radii.x ≤ Transc.eps) || decide (Scalar.abs radii.y ≤ Transc.eps) ||
+  decide (Scalar.abs radii.x ≤ Scalar.ofSci 1 4) || decide (Scalar.abs radii.y ≤ Scalar.ofSci 1 4) ||
     (from_.x == to.x && from_.y == to.y)
 
 /-- euclid `Point2D::approx_eq` (`|a - b| < 1.0e-6` on both coordinates) -/
